@@ -25,6 +25,14 @@ reload: save, load the bytes, same sections — name offset, type, flags, size, 
 size, address if set, data — and segments).  `_flat`: hypotheses on the input object only (`FlatDomain`:
 C03.SaveDomain + bookkeeping + flat segments) plus "no address/offset range of the saved object reaches 2^64".
 After a LAZY reload the data clause holds once the data have been requested (RoundTrip.Reloaded.sec).
+NESTED SEGMENTS (Lemmas/LayoutNested2.lean, Lemmas/RoundTrip2.lean, Props/Compose2.lean): the clause
+`SavedSane.segInside` (a segment's file range ends at or before the section header table) is now proved for segments
+nested in others too: `final_nested_file` (the file size `write_segment_data` derives for a nested segment is 0 or ends
+exactly at the end of one of its file-occupying members), `RoundTrip.segInside_nested`, `savedSane_mixed`;
+`Compose.loaded_satisfies_Loaded_nested` / `reload_reports_saved_nested`: hypotheses on the input object only
+(`NestedDomain selE selN`: every segment is flat - `layoutDomB false false selE` - or nested - `layoutNestedB selN`)
+plus `NoWrap64` of the saved object.  `loaded_satisfies_Loaded_flat_input`: `NoWrap64` of the saved object replaced by
+the input-side `noWrap64InB o hd` (a Bool function of the input that runs the layout; `Compose.noWrap64_of_input`).
 Only covered by correspondence/oracle: `Loaded` for the re-saved form of a LOADED (not created) object with
 nested segments, equality (not only >=) of reloaded memory sizes, ELF32 equidistance.
 Correspondence: family load.  Oracle: object 0 loads the image and is
@@ -55,8 +63,13 @@ THEOREMS = ["ElfioVerif.C05.save_writes_fields",
             "ElfioVerif.Compose.loaded_satisfies_Loaded",
             "ElfioVerif.Compose.loaded_satisfies_Loaded_flat",
             "ElfioVerif.Compose.reload_resave_fields",
-            "ElfioVerif.Compose.reload_resave_fields_flat"]
-EXTRA_IMPORTS = ["ElfioVerif.Props.Compose"]
+            "ElfioVerif.Compose.reload_resave_fields_flat",
+            "ElfioVerif.final_nested_file",
+            "ElfioVerif.RoundTrip.segInside_nested",
+            "ElfioVerif.RoundTrip.savedSane_mixed",
+            "ElfioVerif.Compose.loaded_satisfies_Loaded_nested",
+            "ElfioVerif.Compose.loaded_satisfies_Loaded_flat_input"]
+EXTRA_IMPORTS = ["ElfioVerif.Props.Compose", "ElfioVerif.Props.Compose2"]
 SITES = ["save_", "lsws", "lst_", "lseg", "wsd", "load_s", "sec32_load", "sec64_load"]
 RULE = ("well-formed images whose segment contents are covered by sections (encoder-built linker-like images in 4 "
         "configurations; bundled examples that load) x edit histories {none, add section, append to an unsegmented "
